@@ -743,6 +743,8 @@ class _Unmarshaller:
 
 
 def _read(self, n):
+    if n < 0:
+        raise ValueError("bad marshal data (negative size)")
     pos = self.bufpos
     newpos = pos + n
     if newpos > len(self.bufstr):
